@@ -3,8 +3,20 @@
 package pp
 
 import (
+	"strings"
+
 	"github.com/ohler55/slip"
 )
+
+// The documentation string is written as source code, the reader has to be
+// able to read it. The characters the reader needs escaped (" and \) are
+// carried through the formatter as place holders.
+const (
+	quoteMark     = '\x1e'
+	backslashMark = '\x1d'
+)
+
+var docMarker = strings.NewReplacer("\"", "\x1e", "\\", "\x1d")
 
 // Doc holds a documentation string.
 type Doc struct {
@@ -30,8 +42,16 @@ func (doc *Doc) reorg(edge int) int {
 
 func (doc *Doc) adjoin(b []byte) []byte {
 	b = append(b, '"')
-	b = slip.AppendDoc(b, doc.text, doc.x+1, doc.x+doc.wide, false, 0)
-
+	for _, c := range slip.AppendDoc(nil, docMarker.Replace(doc.text), doc.x+1, doc.x+doc.wide, false, 0) {
+		switch c {
+		case quoteMark:
+			b = append(b, '\\', '"')
+		case backslashMark:
+			b = append(b, '\\', '\\')
+		default:
+			b = append(b, c)
+		}
+	}
 	return append(b, '"')
 }
 
